@@ -30,9 +30,14 @@
        from 0 (Base below), so the sentinel is transcribed literally and never collides.
      * the retained window is anchored at the newest clock reading the key's limiter has SEEN
        (rebuild runs only when an event of that key arrives), not at a global clock.
-     * limiter expiry (limitersMap.maintenance) forgets a key's counters after limiter_expiration
-       of idleness; it is outside the statement's retained window, switched off in the replay by a
-       long limiter_expiration, and not an action here.
+     * limiter expiry: limitersMap.maintenance (action Maintain, every maintenanceInterval) stamps
+       the map with a new generation and forgets every limiter whose own generation -- refreshed by
+       getOrAdd on every use -- is limiter_expiration or more behind.  An IDLE key thus loses its
+       counters (and may pass a second limit in a still running bucket: outside the statement's
+       retained window, accepted); a key that keeps arriving never does (BusyKeyWithinLimit).
+       Expiry is off (cs.E = 0) in the replayed slices -- the step-by-step replay uses a long
+       limiter_expiration -- and on in ExpirySlices; the real maintenance loop is exercised by the
+       harness' real-time expiry family.
      * negative limit = unlimited is outside the statement (limits >= 0) and not modelled.
 
    Mut selects a spec mutant (a mechanism of the anchored code disabled); "none" is the faithful
@@ -41,18 +46,21 @@
 EXTENDS Integers, Sequences, FiniteSets, TLC, Json
 
 CONSTANTS Slices,    \* the slices to explore (<- QuickSlices | ThoroughSlices | MutantSlices | ...)
-          Mut        \* "none" | "lt" | "nozero" | "rot1" | "rotdif" | "noremap" | "future" | "shared" | "steal"
+          Mut        \* "none" | "lt" | "nozero" | "wipeprev" | "rot1" | "rotdif" | "noremap" | "future" | "shared" | "steal" | "nogen"
 
 Base == 100          \* bucket id of the first clock reading (any value far from 0)
 
-VARIABLES cs,        \* the case: [sl, NK, N, C, kind, dist, lim, steps, offs, ws]
+VARIABLES cs,        \* the case: [sl, NK, N, C, kind, dist, lim, steps, offs, ws, E]
           hist,      \* history: one record per event, see Arrive
           now,       \* wall clock (bucket units)
           lims,      \* per key: the limiter  [minID, maxID, cnt]  (cnt[idx][share], idx 0-based as b.b)
           passed,    \* history per key: <<bucket id, share>> -> passed events/size  (charged share)
-          arrived    \* history per key: <<bucket id, share>> -> arrived events/size (charged share)
+          arrived,   \* history per key: <<bucket id, share>> -> arrived events/size (charged share)
+          ex         \* limiters map: [cur = map generation, gen[k] = limiter's generation (-1: no limiter),
+                     \*   last[k] = generation of k's last event (-1: none), busy[k] = k had an event in
+                     \*   every generation since the start (history)]
 
-vars == <<cs, hist, now, lims, passed, arrived>>
+vars == <<cs, hist, now, lims, passed, arrived, ex>>
 
 -----------------------------------------------------------------------------
 (* slices.  nk keys; n events; counts = buckets_count values; limits per key; kinds 0 = count,
@@ -62,14 +70,17 @@ vars == <<cs, hist, now, lims, passed, arrived>>
    clock + f for f in of *)
 Sl(id, nk, n, counts, limits, kinds, weights, dists, sb, sr, back, op, of) ==
   [id |-> id, nk |-> nk, n |-> n, counts |-> counts, limits |-> limits, kinds |-> kinds,
-   weights |-> weights, dists |-> dists, sb |-> sb, sr |-> sr, back |-> back, op |-> op, of |-> of]
+   weights |-> weights, dists |-> dists, sb |-> sb, sr |-> sr, back |-> back, op |-> op, of |-> of,
+   exps |-> {0}]          \* limiter_expiration in maintenance intervals; 0 = expiry off
 
 QuickSlices == {
   Sl("ring",  1, 3, {1, 2, 3}, {0, 1, 2}, {0}, {1},    {0}, {0, 1, 2}, {0, 1}, {}, {0, 1, 2, 3}, {1}),
   Sl("keys",  2, 3, {2},       {1, 2},    {0}, {1},    {0}, {0, 1},    {0},    {}, {0, 1, 2},    {}),
   Sl("size",  1, 3, {2},       {1, 2, 3}, {1}, {1, 2}, {0}, {0, 1, 2}, {},     {}, {0, 1, 2},    {}),
   Sl("dist",  1, 4, {1},       {1, 2, 4}, {0}, {1},    {1}, {0, 1},    {},     {}, {0, 1},       {}),
-  Sl("dsize", 1, 4, {1},       {2, 4},    {1}, {1, 2}, {1}, {0, 1},    {},     {}, {0},          {}) }
+  Sl("dsize", 1, 4, {1},       {2, 4},    {1}, {1, 2}, {1}, {0, 1},    {},     {}, {0},          {}),
+  \* distributed buckets have their own ring code: partial rotation, then late events in retained buckets
+  Sl("drot",  1, 3, {2, 3},    {2, 4},    {0}, {1},    {1}, {0, 1},    {},     {}, {0, 1, 2},    {}) }
 
 ThoroughSlices == {
   Sl("ring",  1, 4, {1, 2, 3}, {0, 1, 2}, {0}, {1},    {0}, {0, 1, 2}, {0, 1}, {}, {0, 1, 2, 3}, {1}),
@@ -79,6 +90,9 @@ ThoroughSlices == {
   Sl("size",  1, 4, {1, 2},    {1, 2, 3}, {1}, {1, 2}, {0}, {0, 1, 2}, {},     {}, {0, 1, 2},    {}),
   Sl("dist",  1, 5, {1},       {1, 2, 4}, {0}, {1},    {1}, {0, 1},    {},     {}, {0, 1},       {}),
   Sl("dist2", 1, 4, {2},       {2, 3, 4}, {0}, {1},    {1}, {0, 2},    {},     {}, {0, 1},       {}),
+  Sl("drot",  1, 4, {2, 3},    {2},       {0}, {1},    {1}, {0, 1},    {},     {}, {0, 1, 2},    {}),
+  Sl("drot3", 1, 3, {2, 3},    {2, 4},    {0}, {1},    {1}, {0, 1, 2}, {},     {}, {0, 1, 2},    {1}),
+  Sl("dsrot", 1, 3, {2},       {2, 4},    {1}, {1, 2}, {1}, {0, 1},    {},     {}, {0, 1},       {}),
   Sl("dsize", 1, 5, {1},       {2, 4},    {1}, {1, 2}, {1}, {0, 1},    {},     {}, {0},          {}),
   Sl("dkeys", 2, 4, {1},       {2},       {0}, {1},    {1}, {0, 1},    {},     {}, {0},          {}) }
 
@@ -86,6 +100,11 @@ ThoroughSlices == {
    level, and replayed for MODEL-DRIFT warnings only *)
 BackSlices == {
   Sl("back",  1, 4, {2},       {1},       {0}, {1},    {0}, {0, 1, 2}, {},     {1}, {0, 1, 2},   {1}) }
+
+(* expiry on: events of two keys interleaved with maintenance rounds (design level; the real
+   maintenance loop runs on the wall clock and is exercised by the harness' real-time family) *)
+ExpirySlices == {
+  [Sl("exp",  2, 6, {1},       {1},       {0}, {1},    {0}, {0, 1},    {},     {}, {0},          {}) EXCEPT !.exps = {2, 3}] }
 
 (* small scopes in which every spec mutant must violate an invariant *)
 MutantSlices == {
@@ -126,7 +145,7 @@ NewLimiter(C, dist) ==            \* newInMemoryLimiter / newBuckets
 (* resetFn(n): b.b = append(b.b[n:], b.b[:n]...); reset the last n *)
 Rotate(cnt, n, C) ==
   [i \in 0..(C - 1) |->
-     IF i < C - n THEN cnt[i + n]
+     IF i < C - n /\ ~(Mut = "wipeprev" /\ i = C - n - 1) THEN cnt[i + n]
      ELSE IF Mut = "nozero" THEN cnt[i + n - C]
      ELSE [s \in DOMAIN cnt[i] |-> 0]]
 
@@ -214,8 +233,8 @@ Must(h, k, b, w, v, L, dist) ==
 -----------------------------------------------------------------------------
 Init ==
   /\ \E sl \in Slices : \E C \in sl.counts : \E kind \in sl.kinds : \E dist \in sl.dists :
-       \E lim \in [1..sl.nk -> sl.limits] :
-        cs = [sl |-> sl.id, NK |-> sl.nk, N |-> sl.n, C |-> C, kind |-> kind, dist |-> dist, lim |-> lim,
+       \E lim \in [1..sl.nk -> sl.limits] : \E E \in sl.exps :
+        cs = [sl |-> sl.id, E |-> E, NK |-> sl.nk, N |-> sl.n, C |-> C, kind |-> kind, dist |-> dist, lim |-> lim,
               steps |-> sl.sb \cup {C + r : r \in sl.sr} \cup {0 - s : s \in sl.back},
               offs |-> {0 - p : p \in {q \in sl.op : q <= C}} \cup sl.of,
               ws |-> IF kind = 1 THEN sl.weights ELSE {1}]
@@ -224,10 +243,12 @@ Init ==
   /\ lims = [k \in Keys |-> NewLimiter(cs.C, cs.dist)]
   /\ passed = [k \in Keys |-> <<>>]
   /\ arrived = [k \in Keys |-> <<>>]
+  /\ ex = [cur |-> 0, gen |-> [k \in Keys |-> -1], last |-> [k \in Keys |-> -1], busy |-> [k \in Keys |-> TRUE]]
 
 (* the clock advances by step, then an event of key k with time now+off, size w and distribution
    value v reaches Plugin.isAllowed: first matching rule -> limitersMap.getOrAdd(rule prefix + key)
-   -> that limiter's isAllowed.  (\E x \in {e} : ... makes TLC evaluate e once.) *)
+   -> that limiter's isAllowed; getOrAdd stamps the limiter with the map's generation.
+   (\E x \in {e} : ... makes TLC evaluate e once.) *)
 Arrive(k, step, off, w, v) ==
   LET cur == now + step
       ts == cur + off
@@ -242,12 +263,29 @@ Arrive(k, step, off, w, v) ==
                                 id |-> r.id, sh |-> r.sh, ok |-> r.ok])
        /\ arrived' = [arrived EXCEPT ![k] = Bump(@, <<r.id, r.sh>>, w)]
        /\ passed' = [passed EXCEPT ![k] = IF r.ok THEN Bump(@, <<r.id, r.sh>>, w) ELSE @]
+       /\ ex' = [ex EXCEPT !.gen[k] = IF Mut = "nogen" /\ @ >= 0 THEN @ ELSE ex.cur, !.last[k] = ex.cur]
        /\ UNCHANGED cs
+
+(* limitersMap.maintenance, one round under l.mu: curGen := now; delete every limiter with
+   now - gen >= limitersExp.  (Recorded in hist with key 0 so that schedules stay distinct.) *)
+Maintain ==
+  LET cur2 == ex.cur + 1
+      gone == {k \in Keys : ex.gen[k] >= 0 /\ cur2 - ex.gen[k] >= cs.E}
+  IN /\ cs.E > 0
+     /\ lims' = [k \in Keys |-> IF k \in gone THEN NewLimiter(cs.C, cs.dist) ELSE lims[k]]
+     /\ ex' = [cur |-> cur2,
+               gen |-> [k \in Keys |-> IF k \in gone THEN -1 ELSE ex.gen[k]],
+               last |-> ex.last,
+               busy |-> [k \in Keys |-> ex.busy[k] /\ ex.last[k] = ex.cur]]
+     /\ hist' = Append(hist, [k |-> 0, now |-> now, ts |-> now, w |-> 0, v |-> 0, hi |-> 0, b |-> 0,
+                              must |-> 2, id |-> 0, sh |-> 0, ok |-> TRUE])
+     /\ UNCHANGED <<cs, now, passed, arrived>>
 
 Next ==
   /\ Len(hist) < cs.N
-  /\ \E k \in Keys : \E step \in cs.steps : \E off \in cs.offs : \E w \in cs.ws : \E v \in Shares(cs.dist) :
-        Arrive(k, step, off, w, v)
+  /\ \/ \E k \in Keys : \E step \in cs.steps : \E off \in cs.offs : \E w \in cs.ws : \E v \in Shares(cs.dist) :
+          Arrive(k, step, off, w, v)
+     \/ Maintain
 
 Spec == Init /\ [][Next]_vars
 
@@ -292,6 +330,15 @@ NoEarlyReject ==
 (* an event whose time is outside [minID, maxID] is charged to maxID; inside, to its own bucket:
    the implementation's bucket id is the declaratively charged one *)
 Remap == \A i \in 1..Len(hist) : hist[i].id = hist[i].b
+
+(* expiry on: a key that keeps arriving (an event in every maintenance generation) never loses its
+   counters, so it stays within the limit per bucket and share whatever the maintenance schedule *)
+BusyKeyWithinLimit ==
+  \A k \in Keys : ex.busy[k] => \A x \in DOMAIN passed[k] : passed[k][x] <= SL(k, x[2])
+
+(* a limiter is forgotten only after limiter_expiration without use *)
+EvictedOnlyIdle ==
+  \A k \in Keys : (ex.last[k] >= 0 /\ ex.gen[k] = -1) => ex.cur - ex.last[k] >= cs.E
 
 (* the statement itself, by distribution VALUE, for the bucket just touched *)
 ValueWithinShare ==
